@@ -16,7 +16,7 @@ def german_classes(method: str, rng: random.Random, per_class: int = 2):
     short accounts, raising paths."""
     out, seen = [], {}
     tries = 0
-    while tries < 6000 and sum(len(v) for v in seen.values()) < per_class * 14:
+    while tries < 12000 and sum(len(v) for v in seen.values()) < per_class * 24:
         tries += 1
         k = rng.choice([3, 5, 6, 8, 9, 10, 10])
         a = "".join(rng.choice(R.DIGITS) for _ in range(k)).zfill(10)
@@ -24,7 +24,9 @@ def german_classes(method: str, rng: random.Random, per_class: int = 2):
         r = G.facts(method, a).get("r")
         cls = (v, "r0" if r == 0 else "r1" if r == 1 else "rx", "len10" if a[0] != "0" else "short",
                # drivers of method-specific branches (88: d3=9, 61: d9=8, 26/13/76: leading 00, 24/68: first digits)
-               a[2] == "9", a[8] == "8", a[:2] == "00", a[0] in "3456" or a[0] == "9")
+               a[2] == "9", a[8] == "8", a[:2] == "00", a[0] in "3456" or a[0] == "9",
+               # the exception rules of 16 / 23 look at the last two digits
+               a[8] == a[9] and r == 1)
         if len(seen.setdefault(cls, [])) < per_class:
             seen[cls].append(a)
     for cls, accs in sorted(seen.items()):
